@@ -259,8 +259,7 @@ const SCL: usize = SN;
 /// Helper code avoids `for` loops and byte loops: in the dev profile every iteration of an
 /// iterator loop costs ~150 symex steps.
 const PK: usize = (NE + 7) / 8;
-const _PT_FITS: () = assert!(core::mem::size_of::<Point>() >= 8 * PK
-    && core::mem::align_of::<Point>() == 8 && NE % 8 <= 1);
+const _PT_FITS: () = assert!(core::mem::size_of::<Point>() >= 8 * PK && NE % 8 <= 1);
 
 /// packs NE bytes (buf.len() == NE) into PK little-endian words
 fn pt_limbs(buf: &[u8]) -> [u64; PK] {
@@ -423,6 +422,16 @@ fn st_pt_set_mulgen(this: &mut Point, n: &Scalar) {
     *this = pt_wrap(&w);
 }
 
+//@if ristretto
+/// ristretto255::Point::mulgen goes through ed25519::Point::mulgen; the ristretto point is a
+/// newtype around the ed25519 point (same layout)
+fn st_ed_set_mulgen(this: &mut crate::ed25519::Point, n: &Scalar) {
+    const _SAME: () = assert!(core::mem::size_of::<crate::ed25519::Point>() == core::mem::size_of::<Point>());
+    let p = unsafe { &mut *(this as *mut crate::ed25519::Point as *mut Point) };
+    st_pt_set_mulgen(p, n);
+}
+//@endif
+
 fn st_pt_verify_helper(_p: Point, _r: &Point, _s: &Scalar, _k: &Scalar) -> bool {
     kani::any()
 }
@@ -466,6 +475,9 @@ fn st_h5(_m: &[u8]) -> [u8; @HLEN@] { kani::any() }
 //# #[kani::stub(@PTP@::set_add, st_pt_set_add)]
 //# #[kani::stub(@PTP@::set_mul, st_pt_set_mul)]
 //# #[kani::stub(@PTP@::set_mulgen, st_pt_set_mulgen)]
+//@if ristretto
+//# #[kani::stub(crate::ed25519::Point::set_mulgen, st_ed_set_mulgen)]
+//@endif
 //# #[kani::stub(@PTP@::verify_helper_vartime, st_pt_verify_helper)]
 //# #[kani::stub(crate::frost::@S@::H1, st_h1)]
 //# #[kani::stub(crate::frost::@S@::H2, st_h2)]
